@@ -47,8 +47,12 @@ def action_ops():
 
 def strategy(tier):
     nops = 24 if tier == "quick" else 40
+    # an action attempted while one of its OS accesses fails for a reason
+    # unrelated to the process (fd exhaustion, no memory, I/O error)
+    faulted = [st.tuples(st.just("faulted"), a, st.sampled_from(["EMFILE", "ENFILE", "ENOMEM", "EIO"]),
+                         st.integers(0, 3)) for a in action_ops()]
     ops = (history.table_ops() + history.query_ops() + history.extra_ops()
-           + action_ops() + action_ops())
+           + action_ops() + action_ops() + [st.one_of(faulted)])
     return st.fixed_dictionaries(dict(
         pid0=st.sampled_from([False, False, False, True]),
         # which pool PIDs are alive at the start (bit i) and have an object
@@ -166,6 +170,11 @@ def run_case(case):
                 psutil.pids()
             elif w.apply_extra(op):
                 pass
+            elif kind == "faulted":
+                o = w.pick_obj(op[1][1])
+                if o is None:
+                    continue
+                do_action(w, o, tuple(op[1]), labels, nontrivial, queries_since_recycle, fault=(op[2], op[3]))
             else:
                 o = w.pick_obj(op[1])
                 if o is None:
@@ -184,7 +193,7 @@ def run_case(case):
     return Result(sorted(labels) or ["no-action"], nontrivial or None)
 
 
-def do_action(w, o, op, labels, nontrivial, queries_since_recycle):
+def do_action(w, o, op, labels, nontrivial, queries_since_recycle, fault=None):
     import psutil
 
     k = w.k
@@ -231,11 +240,19 @@ def do_action(w, o, op, labels, nontrivial, queries_since_recycle):
         raise AssertionError(kind)
 
     nk, ns = len(k.kills), len(k.setcalls)
+    ferrno = None
+    if fault is not None:
+        import errno as _errno
+        ferrno = getattr(_errno, fault[0])
+        k.arm([simk.Fault(fault[1], "deny", P, ferrno)])
     try:
         fn()
         exc = None
     except BaseException as e:  # noqa: BLE001
         exc = e
+    finally:
+        if fault is not None:
+            k.arm([])
     new_kills = k.kills[nk:]
     new_sets = k.setcalls[ns:]
     delivered = [("kill", p_, s_, inc) for p_, s_, inc in new_kills] + [
@@ -246,10 +263,17 @@ def do_action(w, o, op, labels, nontrivial, queries_since_recycle):
     for d in delivered:
         if d[1] != P:
             raise Violation("wrong-target", f"{desc}: delivered {d}")
+    if fault is not None:
+        desc += f" while access {fault[1]} pertaining to the pid fails with {fault[0]}"
+        labels.add("action-under-transient-error")
     if not mine:
         # own process gone: NoSuchProcess, and nothing reaches a new owner
         if delivered:
             raise Violation("delivered-to-new-owner", f"{desc}: delivered {delivered}")
+        if (ferrno is not None and isinstance(exc, OSError) and not isinstance(exc, psutil.Error)
+                and exc.errno == ferrno):
+            labels.add("transient-error-came-through")
+            return  # the environment's failure comes through; nothing was delivered
         if not isinstance(exc, psutil.NoSuchProcess):
             if not valid and isinstance(exc, (ValueError, OSError, OverflowError, TypeError)):
                 pass  # invalid request rejected before / instead of the identity check
@@ -269,6 +293,10 @@ def do_action(w, o, op, labels, nontrivial, queries_since_recycle):
             labels.add("action-on-gone-pid")
         return
     # own incarnation still in the table (zombie included)
+    if (ferrno is not None and isinstance(exc, OSError) and not isinstance(exc, psutil.Error)
+            and exc.errno == ferrno and not delivered):
+        labels.add("transient-error-came-through")
+        return
     if not valid:
         if exc is None or isinstance(exc, psutil.Error):
             raise Violation("invalid-accepted", f"{desc}: {exc!r}")
